@@ -17,9 +17,9 @@ RULE = ('case = (configuration, permutation of its Set* calls) or (DE2 / ensembl
 ASSUMPTIONS = ['the seed is set once before configuring and once more before stepping', 'ensemble members are Nelder-Mead / Powell (no random draws while running)',
                'maps return results by index (the documented map contract); what varies is evaluation and completion order']
 CLASSES = {
-    'permutations': {'quick': 320, 'thorough': 2400},
-    'de2_maps': {'quick': 160, 'thorough': 1000},
-    'ensemble_maps': {'quick': 160, 'thorough': 1200},
+    'permutations': {'quick': 240, 'thorough': 2400},
+    'de2_maps': {'quick': 120, 'thorough': 1000},
+    'ensemble_maps': {'quick': 72, 'thorough': 1200},
 }
 MIN_EVENTS = {'quick': {'assert:perm': 300, 'assert:map': 150, 'nonidentity_completion_orders': 30}}
 CASE_TIMEOUT = 180
